@@ -75,6 +75,10 @@ def qinv(a):
         if a.n.val == 0:
             raise ZeroDivisionError("division by constant zero")
         return Q(T.scale(1 / a.n.val, a.d), T.ONE)
+    c0, core0 = T._split_scaled(a.n)
+    if core0 is not None and core0.op == "sqrt" and core0.args[0].op == "const" and core0.args[1] is T.ONE:
+        # 1/(c*sqrt(m)) = sqrt(m)/(c*m): keep denominators rational
+        return Q(T.mul(T.scale(1 / (c0 * core0.args[0].val), core0), a.d), T.ONE)
     if state.CUR is not None:
         state.CUR.guard_div(a.n)
     # keep denominators sign-normalised? not needed: equalities are cross-multiplied, inequalities use d*d
@@ -318,12 +322,12 @@ class Sym:
                 if e:
                     base = base * base
             return res
-        if e == 0.5 or e == Fraction(1, 2):
-            return self.sqrt()
-        if e == -0.5:
-            return self.sqrt().inverse()
-        if e == 1.5:
-            return self * self.sqrt()
+        try:
+            e2 = Fraction(e) * 2
+        except (TypeError, ValueError):
+            raise NotImplementedError("power %r" % (e,))
+        if e2.denominator == 1:
+            return self.sqrt() ** int(e2)
         raise NotImplementedError("power %r" % (e,))
 
     def __rpow__(self, b):
@@ -417,7 +421,7 @@ class Sym:
             a = self.re.term()
             mag = Sym(Q(T.add(T.hyp("cosh", a), T.hyp("sinh", a))))
         if self.im.n is T.ZERO:
-            return mag
+            return mag if mag is not None else Sym.const(1)
         b = self.im.term()
         ph = Sym(Q(T.trig("cos", b)), Q(T.trig("sin", b)))
         return ph if mag is None else mag * ph
